@@ -12,7 +12,7 @@ import os
 import re
 
 VERIF = os.path.dirname(os.path.dirname(os.path.abspath(__file__)))
-MAX_BLOCKS = 120
+MAX_BLOCKS = 400
 MAX_DEPTH = 4
 EXPAND_ITER = os.environ.get("VERIF_ITER_EXPAND") == "1"  # global expansion of iterator combinators: off (rules read the combinator forms); see expand_view
 
